@@ -425,17 +425,25 @@ def symNames : List Val → Option (List String)
   | .sym cs :: r => (symNames r).map (nameOf cs :: ·)
   | _ :: _ => none
 
-/-- `is_list(f[0]) and len(f[0]) > 0` and every element a symbol -/
+/-- the `';'` elements of a declaration written `[a;b]` -/
+def isSep : Val → Bool
+  | .str [59] => true
+  | .chr 59 => true
+  | _ => false
+
+/-- `f[0]` is an array literal, non-empty, and apart from separators every element is a symbol -/
 def localNames : Expr → Option (List String)
-  | .lit (.list (v :: vs)) => symNames (v :: vs)
+  | .lit (.list (v :: vs)) =>
+    let ns := (v :: vs).filter (fun q => !isSep q)
+    if ns.isEmpty then none else symNames ns
   | _ => none
 
-/-- the local-declaration test of `_eval_fn`: `(names, f[1:])` -/
+/-- the local-declaration test of `_eval_fn`: `(names, f[1:])`.  Only a plain list of two or more
+    expressions whose first one is an array literal of symbols (conditionals and data literals, which
+    are list-like too, are not such bodies) -/
 def splitLocals (f : Expr) : Option (List String × Expr) :=
   match f with
   | .prog (e0 :: e1 :: es) => (localNames e0).map fun ns => (ns, .prog (e1 :: es))
-  | .cond c a b => (localNames c).map fun ns => (ns, .prog [a, b])
-  | .lit (.list (v0 :: v1 :: vs)) => (localNames (.lit v0)).map fun ns => (ns, .lit (.list (v1 :: vs)))
   | _ => none
 
 /-- `for q in params: if q not in ctx: ctx[q] = q` -/
@@ -473,13 +481,20 @@ def frameOf (f : Expr) (frame0 : KV) : KV × Expr :=
   | none => (frame0.put ".f" f, f)
 
 /-- second half of `_eval_fn`: bind, push, evaluate, pop in `finally` -/
+def bindFrame (ev : Expr → M Expr) (merged : Option (List Expr)) : M KV :=
+  match merged with
+  | none => pure []
+  | some as => bindArgs ev ["x", "y", "z"] as
+
+/-- `f(self, self._context) if issubclass(type(f), KGLambda) else self.call(f)` -/
+def runBody (ev : Expr → M Expr) (body : Expr) : M Expr :=
+  match body with
+  | .lam name => runPrim name
+  | body => callE ev body
+
 def applyFn (ev : Expr → M Expr) (f : Expr) (merged : Option (List Expr)) : M Expr := do
-  let frame0 ← match merged with
-    | none => pure []
-    | some as => bindArgs ev ["x", "y", "z"] as
-  framed (frameOf f frame0).1 (match (frameOf f frame0).2 with
-    | .lam name => runPrim name
-    | body => callE ev body)
+  let frame0 ← bindFrame ev merged
+  framed (frameOf f frame0).1 (runBody ev (frameOf f frame0).2)
 
 /-- `_eval_fn(x)` with `x = KGCall(a, args, ar)`; `self` is x itself (returned for a partial application) -/
 def evalFn (ev : Expr → M Expr) (self a : Expr) (args : Option (List Expr)) (ar : Nat) : M Expr := do
